@@ -1,5 +1,20 @@
 # Per-property configuration of bin/check: Lean modules holding the property theorems, level, notes.
 PROPS = {
+    "C09": {
+        "lean": ["Knut.Properties.C09"],
+        "level": "proof",
+        "claim": "PARTIAL proof + full correspondence. Proved (all bookings, all amounts): C09_booking_normal_form (rebuilding the booking that print writes from the debit-side posting yields "
+                 "the identical posting pair), C09_printed_quantity_nonneg, C09_reprint_same_line, C09_targets_line. Not mechanised: the text-level round trip parse(print J) (needs the "
+                 "print-then-parse lemmas of the parser model, built for C08) and decimal/date re-reading. Those clauses are decided on every run on the REAL binary: `knut print` output is "
+                 "compared byte for byte with the Lean model of journal.Print, the printed journal is fed back to `knut print` (must be accepted and reproduce itself byte for byte) and "
+                 "`knut balance` under a random flag vector must give byte-identical output on original and printed journal.",
+        "note": "Trusted: Lean kernel; axioms propext, Classical.choice, Quot.sound; sort.Slice modelled as a stable sort (transactions comparing equal print identically unless their "
+                "@performance targets differ); accrual-annotated transactions not generated here yet.",
+        "rule": "lifecycle journals with negative/zero/trailing-zero/many-decimal amounts, @performance() with 0..n targets, multi-balance assertions followed by further assertions, several "
+                "assertions per day, Unicode names, multi-line descriptions, a twelfth with a lifecycle mutation (rejected journals must be rejected by the model too). "
+                "class = (outcome, feature signature, size bucket).",
+        "assumptions": [],
+    },
     "C02": {
         "lean": ["Knut.Properties.C02"],
         "level": "proof",
@@ -89,6 +104,32 @@ PROPS = {
                 "two real trees, formatting again changes nothing; cli: unparseable files untouched. A class = outcome x changed? x directive-kind set x layout tags.",
         "assumptions": ["fmt.Fprintf padding verbs and strings.Join behave as renderDir (compared on every case)",
                         "the parser model equals the Go parser (C07's correspondence, re-exercised here through c08format)"],
+    },
+    "C10": {
+        "lean": ["Knut.Properties.C10"],
+        "level": "proof",
+        "claim": "Lean theorems over the model of transaction.Create/expand (lib/model/transaction/transaction.go) with posting.Builder.Build, date.NewPartition (the C11 model, last = 0) "
+                 "and Decimal.QuoRem(n, 1), for any number of bookings, all five account types, any quantities, every interval and every window with start <= end: every generated "
+                 "transaction is a pair of mutually negated postings against the accrual account (C10_each_balances); for EVERY account and commodity the total over the generated "
+                 "transactions equals what the original books (C10_conserves_all; C10_conserves is the stated clause for accounts other than the accrual account); the accrual account nets "
+                 "to zero when the transaction does not book on it and otherwise keeps exactly the original amount (C10_accrual_nets_zero, ..._partial); posting by posting, income/expense "
+                 "legs give one transaction per period of the C11 partition dated at the period ends in order with '(accrual i/n)' descriptions, all other legs (assets, liabilities, "
+                 "equity) one transaction on the original date (C10_dates, C10_period_count); n*amount + rem = quantity (C10_quoRem_sum); a non-empty window with valid accounts expands "
+                 "without error or panic (C10_expands), end < start is rejected (C10_inverted_rejected), a window starting on 0001-01-01 panics (C10_zero_start_panics, known finding). "
+                 "The executable predicate accrualOK is proved of the model and proved to mean these clauses; it is evaluated on the real output of every generated case; the real "
+                 "Create (fed by the real parser) is compared with the model byte for byte (dates, descriptions, posting pairs in order, targets).",
+        "note": "Literal reading of 'the accrual account nets to zero' fails when a booking of the transaction is itself on the accrual account: the account then keeps what the original "
+                "booked (conservation holds for it too); stated and proved in that form. Trusted: Lean kernel; axioms propext, Classical.choice, Quot.sound; the C11 partition model "
+                "(tied to date.NewPartition by C11's exhaustive check); shopspring QuoRem/Add/Neg/String on Rat (dec stream); the real parser turns text into syntax.Transaction "
+                "(its output, not the generator's structure, is what the model is given).",
+        "rule": "stream accrual: generated journal text with @accrue (4 parser intervals; windows: single day, within a week, whole months, multi-year, on month borders, random, independent "
+                "of the date) and optional @performance, 1-8 bookings over all five account types incl. both-I/E, neither-I/E, equity legs, same account on both sides and bookings that "
+                "touch the accrual account, quantities from remainder-rich/negative/zero/many-decimal/huge classes; parsed by the real parser, Create compared with the model and accrualOK "
+                "evaluated (original postings taken from the real Create of the same transaction without the annotation); stream malformed: end < start, start 0001-01-01, invalid account "
+                "types, impossible dates, I/E accrual account, random text mutations (outcome classes compared, no panic unless known); stream dec: decimal arithmetic against shopspring. "
+                "A class = (stream, outcome, interval, legs bucket, I/E legs, generated bucket).",
+        "assumptions": ["shopspring/decimal QuoRem, Add, Neg and String() behave as the Rat model (sampled on every run by the dec stream)",
+                        "date.NewPartition behaves as the C11 model (established by C11's exhaustive correspondence)"],
     },
     "C11": {
         "lean": ["Knut.Properties.C11"],
